@@ -143,3 +143,14 @@ func sizedBatch(rng *rand.Rand, target uint64) *model.Batch {
 }
 
 var sizedTargets = []uint64{1 << 20, 2 << 20, 4096, 65536, 1<<20 - 52, 4096 - 52, 1<<20 + 1, 65536 - 52}
+
+// firstFieldName: name of the first field of the first ordinary document
+// (synonym-definition documents have no fields).
+func firstFieldName(b *model.Batch) string {
+	for i := range b.Docs {
+		if len(b.Docs[i].Fields) > 0 {
+			return b.Docs[i].Fields[0].Name
+		}
+	}
+	return model.FieldPool[0]
+}
